@@ -825,12 +825,12 @@ matched against the submitted passwords. CLen cases tie str::len / utf8_len / to
 non-trivial = within one configuration at least one password was stored and at least one request was refused.".into();
     rt.block_on(async {
         let srv = setup().await;
-        let n_groups = if args.thorough { 1200 } else { 110 };
+        let n_groups = if args.thorough { 1000 } else { 80 };
         for i in 0..n_groups {
             if i % 10 == 0 {
                 emit_len(&mut rng, &mut sink, 40);
             }
-            run_group(&srv, &mut rng, &mut sink, 12, 6).await;
+            run_group(&srv, &mut rng, &mut sink, 10, 5).await;
         }
     });
     sink.finish();
